@@ -297,6 +297,19 @@ def extract_router(src_root, vals):
         for n in ast.walk(st):
             if isinstance(n, ast.Delete) or (isinstance(n, ast.Call) and ast.unparse(n.func) in ('attrs.pop', 'attrs.clear')):
                 raise Unknown('attrs entries are removed after traversal')
+    for st in body[b + 1:]:
+        for n in ast.walk(st):
+            tgts = []
+            if isinstance(n, ast.Assign):
+                tgts = n.targets
+            elif isinstance(n, (ast.AugAssign, ast.AnnAssign)):
+                tgts = [n.target]
+            for t in tgts:
+                if isinstance(t, ast.Subscript) and ast.unparse(t.value) == 'attrs' and isinstance(t.slice, ast.Constant) \
+                        and t.slice.value in vals['ret_keys']:
+                    raise Unknown('attrs[%r] is overwritten after attrs.update(tdict)' % t.slice.value)
+                if isinstance(t, ast.Attribute) and ast.unparse(t.value) == 'request' and t.attr in vals['ret_keys']:
+                    raise Unknown('request.%s is overwritten after attrs.update(tdict)' % t.attr)
     vals['router_root_key'] = key
     vals['router_updates_attrs'] = True
     return F.shape(ast.Module(body=sl, type_ignores=[]))
